@@ -425,10 +425,8 @@ def _list_identity(ctx, adt, p):
     lf = lock_list_field(ctx, adt) if adt in SORTING else None
     ids = set()
     for e in p.events:
-        if e["k"] == "PRIM" and e["def"].startswith("collection::utils::ordered_"):
+        if e["k"] == "PRIM" and (e.get("role") or "").startswith("ordered_"):
             ids.add(vid(e["argv"][0]))
-        if e["k"] == "PRIM" and e["def"].startswith("collection::utils::attempt_to_recover"):
-            pass
         if e["k"] == "CALL" and e["def"] == ITER_OK[0]:
             ids.add(vid(e["argv"][0]))
     return ids
@@ -452,7 +450,7 @@ def rule_E2(ctx, R):
                 prims = {e["result"]: e for e in p.ev("PRIM")}
                 for e in p.events:
                     cand = None
-                    if e["k"] == "PRIM" and (e["def"].startswith("collection::utils::ordered_")):
+                    if e["k"] == "PRIM" and (e.get("role") or "").startswith("ordered_"):
                         cand = e["argv"][0]
                     elif e["k"] == "CALL" and (e.get("base") == ITER_OK[0] or e["def"].split("::")[-1] == "for_each"):
                         cand = e["argv"][0]
@@ -469,7 +467,7 @@ def rule_E2(ctx, R):
                         hops += 1
                     if cand[0] == "op" and cand[1] in prims:
                         pe = prims[cand[1]]
-                        src.add("%s(%s)" % (pe["def"].split("::")[-1], vid(pe["argv"][0])))
+                        src.add("%s(%s)" % (pe.get("role") or pe["def"].split("::")[-1], vid(pe["argv"][0])))
                     else:
                         src.add(vid(cand))
                 # mode purity
@@ -480,16 +478,16 @@ def rule_E2(ctx, R):
                         if want[0] == "REL" and e["k"] != "REL":
                             bad = "acquisition inside a release op"
                     for e in p.ev("PRIM"):
-                        d = e["def"].split("::")[-1]
+                        d = e.get("role") or ""
                         if d.startswith("ordered_"):
                             exp = {"raw_write": "ordered_write", "raw_read": "ordered_read",
                                    "raw_try_write": "ordered_try_write", "raw_try_read": "ordered_try_read"}.get(name)
                             if d != exp:
                                 bad = "%s calls %s (expected %s)" % (name, d, exp)
-                        if d.startswith("attempt_to_recover") and (("writes" in d) != (want[1] == "W")):
-                            bad = "%s rolls back with %s" % (name, d)
+                        if d.startswith("recover_") and (("writes" in d) != (want[1] == "W")):
+                            bad = "%s rolls back with %s" % (name, e["def"].split("::")[-1])
                     if name.startswith("raw_try") and p.kind == "ret":
-                        ords = [e for e in p.ev("PRIM") if e["def"].split("::")[-1].startswith("ordered_try")]
+                        ords = [e for e in p.ev("PRIM") if (e.get("role") or "").startswith("ordered_try")]
                         if ords and not (p.value and p.value[0] == "op" and p.value[1] == ords[0]["result"]):
                             bad = "result of %s is not returned unmodified" % ords[0]["def"].split("::")[-1]
             lists[name] = src
@@ -503,7 +501,7 @@ def rule_E2(ctx, R):
                 elif others:
                     bad = "release loop uses %s" % others[0]
             if want and want[0] in ("ACQ", "TRY") and adt != "collection::RetryingLockCollection":
-                if not any(e["def"].split("::")[-1].startswith("ordered_") for p in paths for e in p.ev("PRIM")):
+                if not any((e.get("role") or "").startswith("ordered_") for p in paths for e in p.ev("PRIM")):
                     bad = "acquisition does not go through an ordered_* helper"
             if bad:
                 res.bad(Violation("E2", f["path"], name, "%s::%s: %s" % (adt, name, bad), *_floc(f)))
@@ -575,7 +573,7 @@ def rule_L2(ctx, R):
             lst = vid(s["argv"][0])
             # the sorted vector is the one get_ptrs filled, before the sort
             filled = [e for e in p.events[:s["i"]] if (e["k"] == "GETPTRS" and vid(e["intov"]) == lst) or
-                      (e["k"] == "PRIM" and e["def"].endswith("get_locks_unsorted") and "op:" + e["result"] == lst)]
+                      (e["k"] == "PRIM" and e.get("role") == "get_locks_unsorted" and "op:" + e["result"] == lst)]
             late = [e for e in p.events[s["i"]:] if e["k"] in ("GETPTRS",) or (e["k"] == "CALL" and ("push" in e["def"] or "extend" in e["def"]))]
             if len(filled) != 1:
                 bad = "sorted vector is not the result of exactly one full get_ptrs (%d)" % len(filled)
@@ -645,7 +643,7 @@ def rule_L2(ctx, R):
                     continue   # decided in (a)
                 # list must be the result of the sorter primitive get_locks applied to the stored data
                 pe = [e for e in p.ev("PRIM") if "op:" + e["result"] == vid(lv)]
-                if not pe or pe[0]["def"] != "collection::utils::get_locks":
+                if not pe or pe[0].get("role") != "get_locks":
                     bad = "lock list of the constructed %s does not come from the sorting helper" % c[2]
                 elif vid(pe[0]["argv"][0]) != vid(dv):
                     bad = "lock list enumerated from %s but data field is %s" % (vid(pe[0]["argv"][0]), vid(dv))
@@ -654,15 +652,17 @@ def rule_L2(ctx, R):
         else:
             res.ok("constructor " + f["path"])
     # (c) get_locks must itself be a sorter (it is used as a primitive above)
-    if "collection::utils::get_locks" not in sorter_paths:
-        res.bad(Violation("L2", "collection::utils::get_locks", "sort", "get_locks no longer sorts its result"))
+    gl = ctx.A.by_role.get("get_locks")
+    if gl is None or gl not in sorter_paths:
+        res.bad(Violation("L2", gl or "<get_locks>", "sort", "no helper returns the lock list of a lockable sorted by address "
+                          "(the sorting helper no longer sorts, or is gone)"))
     res.need(6, "sorters and sorting-collection constructors")
     return res
 
 
 # ---------------------------------------------------------------------------------------------
 OWNED = "lockable::OwnedLockable"
-DUP_CHECKS = ("collection::utils::ordered_contains_duplicates", "collection::retry::contains_duplicates")
+DUP_ROLES = ("dup_sorted", "dup_set")
 
 
 def _has_owned_bound(f):
@@ -701,7 +701,7 @@ def checked_constructor(ctx, f):
                 for x in vv[4]:
                     visit(x)
         visit(v)
-        checks = [e for e in p.ev("PRIM") if e["def"] in DUP_CHECKS]
+        checks = [e for e in p.ev("PRIM") if e.get("role") in DUP_ROLES]
         if colls:
             nsome += 1
             if len(checks) != 1:
@@ -713,13 +713,13 @@ def checked_constructor(ctx, f):
             arg = c["argv"][0]
             if coll[2] in SORTING:
                 lf = lock_list_field(ctx, coll[2])
-                if c["def"] != DUP_CHECKS[0]:
+                if c.get("role") != DUP_ROLES[0]:
                     return False, "sorting collection checked with the wrong helper"
                 if vid(arg) != vid(coll[4][lf]) and vid(arg) != "ref:" + vid(coll[4][lf])[3:]:
                     # the check may look at the list through the constructed collection (`this.locks()`)
                     return False, "duplicate check looks at %s, not at the collection's own sorted lock list %s" % (vid(arg), vid(coll[4][lf]))
             else:
-                if c["def"] != DUP_CHECKS[1]:
+                if c.get("role") != DUP_ROLES[1]:
                     return False, "adjacent-pair check used on an unsorted collection"
                 if vid(arg) != vid(coll[4][0]) and vid(arg) != "ref:" + vid(coll[4][0])[3:]:
                     return False, "duplicate check looks at %s, not at the collection's data %s" % (vid(arg), vid(coll[4][0]))
@@ -774,7 +774,7 @@ def rule_N3(ctx, R):
     F = ctx.F
     # ordered_contains_duplicates
     try:
-        f = F.fn(DUP_CHECKS[0])
+        f = F.fn(ctx.A.by_role["dup_sorted"])
         paths, err, I = ctx.paths(f)
         if err:
             res.undecided(f["path"], "analysis", err, *_floc(f))
@@ -818,10 +818,10 @@ def rule_N3(ctx, R):
             else:
                 res.ok(f["path"])
     except KeyError as e:
-        res.undecided(DUP_CHECKS[0], "anchor", str(e))
+        res.undecided("<adjacent-pair duplicate check>", "anchor", "no such helper found: " + str(e))
     # contains_duplicates (hash set of thin addresses)
     try:
-        f = F.fn(DUP_CHECKS[1])
+        f = F.fn(ctx.A.by_role["dup_set"])
         paths, err, I = ctx.paths(f)
         if err:
             res.undecided(f["path"], "analysis", err, *_floc(f))
@@ -883,7 +883,7 @@ def rule_N3(ctx, R):
             else:
                 res.ok(f["path"])
     except KeyError as e:
-        res.undecided(DUP_CHECKS[1], "anchor", str(e))
+        res.undecided("<address-set duplicate check>", "anchor", "no such helper found: " + str(e))
     res.need(2, "duplicate checks")
     return res
 
@@ -993,10 +993,10 @@ def rule_L4(ctx, R):
         for p in paths or []:
             prims = {e["result"]: e for e in p.ev("PRIM")}
             for e in p.ev("PRIM"):
-                if e["def"].split("::")[-1] in ("ordered_write", "ordered_read"):
+                if e.get("role") in ("ordered_write", "ordered_read"):
                     a0 = e["argv"][0]
                     if a0[0] == "op" and a0[1] in prims:
-                        srcs[name] = "%s(%s)" % (prims[a0[1]]["def"].split("::")[-1], vid(prims[a0[1]]["argv"][0]))
+                        srcs[name] = "%s(%s)" % (prims[a0[1]].get("role"), vid(prims[a0[1]]["argv"][0]))
                     else:
                         srcs[name] = vid(a0)
     if len(srcs) == 2 and len(set(srcs.values())) == 1 and next(iter(srcs.values())).startswith("get_locks_unsorted("):
